@@ -18,7 +18,7 @@ import random
 
 import numpy as np
 
-from .common import all_sorted_tables_upto, children_of, coords_for, make_tree, random_sorted_table, subtree_of
+from .common import LAYOUTS, all_sorted_tables_upto, children_of, coords_for, make_tree, random_sorted_table, subtree_of
 
 
 # ------------------------------------------------------------------------------------------------ canonical values
@@ -65,6 +65,16 @@ def rebuild(t):
 
 
 # ------------------------------------------------------------------------------------------------------- mutations
+class LostWrite(Exception):
+    """a step of the history did not happen: the value assigned through a node handle is not in the owner's column afterwards"""
+
+
+def _landed(t, col, k, want):
+    got = t.ndata[col][k]
+    if not close(float(got), float(np.asarray(want, dtype=t.ndata[col].dtype))):
+        raise LostWrite(f"node({k}).{col} = {want!r} assigned, the owner's column holds {got!r}")
+
+
 def _tips(pid):
     ch = children_of(pid)
     return [i for i in range(len(pid)) if not ch[i] and pid[i] != -1]
@@ -83,7 +93,9 @@ def mutations(pid, rng):
         def go(t):
             k = n - 1
             node = t.node(k)
-            setattr(node, col, f(getattr(node, col)))
+            new = f(getattr(node, col))
+            setattr(node, col, new)
+            _landed(t, col, k, new)
             return [("written-in-place", t)]
 
         return go
@@ -103,6 +115,7 @@ def mutations(pid, rng):
 
         def go_regraft(t, k=k, j=j):
             t.node(k).pid = j
+            _landed(t, "pid", k, j)
             return [("regrafted-in-place", t)]
 
         out.append(("node-handle-write-pid", dict(node=k, new_parent=j), go_regraft))
@@ -296,20 +309,38 @@ def _ask(fn, t):
         return ("raised", type(e).__name__)
 
 
-def check_history(ctx, queries, pid, xyz, rng, cap=None, only=None):
-    """one tree x every mutation; returns the number of failing comparisons"""
+def check_history(ctx, queries, pid, xyz, rng, cap=None, only=None, layouts=("separate",)):
+    """one tree x every mutation (x the storage layouts given: `layouts` is a sequence, or a callable mutation number -> sequence);
+    returns the number of failing comparisons"""
     bad = 0
-    for label, spec, step in mutations(tuple(pid), random.Random(rng.random())):
+    for mi, (label, spec, step) in enumerate(mutations(tuple(pid), random.Random(rng.random()))):
         if only is not None and label != only:
             continue
-        t = make_tree(pid, xyz)
+        for layout in (layouts(mi) if callable(layouts) else layouts):
+            bad += _one_history(ctx, queries, pid, xyz, cap, label, spec, step, layout)
+    return bad
+
+
+def _one_history(ctx, queries, pid, xyz, cap, label, spec, step, layout):
+    bad = 0
+    if True:
+        t = make_tree(pid, xyz, layout=layout)
         for _, fn in queries.values():  # the history: every query once (caches fill here), also on a copy taken BEFORE the step
             _ask(fn, t)
         try:
             objs = step(t)
+        except LostWrite as e:
+            if cap is None or cap.setdefault(("Node.__setitem__", "write-lands"), 0) < 3:
+                if cap is not None:
+                    cap[("Node.__setitem__", "write-lands")] += 1
+                ctx.violation("Node.__setitem__", "history-independent/a-write-through-a-node-handle-lands-in-the-owner",
+                              dict(pid=list(pid), columns=layout, history=f"every query once, then {label} {spec}"), observed=str(e), expected="the owner's column holds the assigned value",
+                              replay=dict(kind="history", pid=list(pid), xyz=[[float(a) for a in row] for row in xyz], step=label, seed=0, layout=layout))
+            return bad + 1
         except Exception as e:  # noqa: BLE001 - a mutation the library refuses is no history
-            ctx.notes.append(f"history step {label} raised {type(e).__name__} on pid={list(pid)} (skipped)") if len(ctx.notes) < 20 else None
-            continue
+            if not (layout == "readonly" and isinstance(e, ValueError)):  # (a write into read-only columns is refused by numpy: no history)
+                ctx.notes.append(f"history step {label} raised {type(e).__name__} on pid={list(pid)}, columns {layout} (skipped)") if len(ctx.notes) < 20 else None
+            return bad
         for role, obj in objs:
             try:
                 fresh = rebuild(obj)
@@ -323,14 +354,14 @@ def check_history(ctx, queries, pid, xyz, rng, cap=None, only=None):
                         if cap is not None:
                             cap[(carrier, qname)] += 1
                         ctx.violation(carrier, f"history-independent/{qname}",
-                                      dict(pid=list(pid), history=f"every query once, then {label} {spec}", object=role),
+                                      dict(pid=list(pid), columns=layout, history=f"every query once, then {label} {spec}", object=role),
                                       observed=got, expected=f"{want} (the same query on a tree built afresh from the object's current columns)",
-                                      replay=dict(kind="history", pid=list(pid), xyz=[[float(a) for a in row] for row in xyz], step=label, seed=0))
-        ctx.case("history", dict(pid=list(pid), step=label), nontrivial=len(pid) >= 2)
+                                      replay=dict(kind="history", pid=list(pid), xyz=[[float(a) for a in row] for row in xyz], step=label, seed=0, layout=layout))
+        ctx.case("history", dict(pid=list(pid), step=label, columns=layout), nontrivial=len(pid) >= 2)
     return bad
 
 
-def run(ctx, queries, nmax_quick=5, nmax_thorough=6, random_quick=6, random_thorough=40):
+def run(ctx, queries, nmax_quick=5, nmax_thorough=6, random_quick=6, random_thorough=40, layouts=LAYOUTS):
     rng = random.Random(ctx.seed + 4242)
     cap = {}
     nmax = nmax_quick if ctx.tier == "quick" else nmax_thorough
@@ -339,15 +370,26 @@ def run(ctx, queries, nmax_quick=5, nmax_thorough=6, random_quick=6, random_thor
         keep = [p for p in tables if len(p) <= 4]
         rest = [p for p in tables if len(p) > 4]
         tables = keep + random.Random(ctx.seed).sample(rest, 60 - len(keep))
-    for pid in tables:
-        check_history(ctx, queries, pid, coords_for(pid), rng, cap)
-    for _ in range(random_quick if ctx.tier == "quick" else random_thorough):
+    layouts = tuple(layouts)
+    others = [l for l in layouts if l != "separate"] or list(layouts)
+
+    def pick(ti, n):
+        """storage layouts of (tree number ti of n nodes, mutation number mi): every layout for trees of <= 3 nodes (thorough tier: all trees);
+        beyond that `separate` plus ONE other layout, rotating with tree and mutation so that every (mutation, layout) pair recurs"""
+        if n <= 3 or ctx.tier != "quick":
+            return layouts
+        return lambda mi: (["separate"] if "separate" in layouts else []) + [others[(ti + mi) % len(others)]]
+
+    for ti, pid in enumerate(tables):
+        check_history(ctx, queries, pid, coords_for(pid), rng, cap, layouts=pick(ti, len(pid)))
+    for ti in range(random_quick if ctx.tier == "quick" else random_thorough):
         pid = random_sorted_table(rng, rng.randrange(7, 14))
-        check_history(ctx, queries, pid, coords_for(pid, rng), rng, cap)
+        check_history(ctx, queries, pid, coords_for(pid, rng), rng, cap, layouts=pick(ti, len(pid)))
     ctx.rule("history independence: sorted parent tables with <= %d nodes (quick: all up to 4 nodes and a seeded sample of the larger ones) plus seeded random trees of 7-13 nodes; "
              "history = every query once, then ONE of {node-handle write of x / r / type / pid (regraft of a tip), whole-column write, copy then write, Scale, Translate, "
              "redirect_tree (sorted and unsorted), sort_tree, to_subtree}; every query on every object involved must equal the query on a tree built afresh from that "
-             "object's current columns" % nmax, exhaustive=False)
+             "object's current columns; the tree's columns are handed to the constructor in the storage layouts %s (bounded/common.py: lay_out; all of them for trees of <= 3 nodes, "
+             "`separate` plus one rotating other layout for larger trees in the quick tier)" % (nmax, ", ".join(layouts)), exhaustive=False)
 
 
 def replay(queries, spec):
@@ -362,7 +404,7 @@ def replay(queries, spec):
             pass
 
     c = C()
-    check_history(c, queries, spec["pid"], np.array(spec["xyz"]), random.Random(spec.get("seed", 0)), None, only=spec["step"])
+    check_history(c, queries, spec["pid"], np.array(spec["xyz"]), random.Random(spec.get("seed", 0)), None, only=spec["step"], layouts=(spec.get("layout", "separate"),))
     for v in c.violations:
         print("  still failing:", v[:2])
     return not c.violations
